@@ -40,6 +40,7 @@ type Engine struct {
 	mutableGlobal map[*ssa.Global]bool
 	lockClasses   map[string]bool // "pkg.Type.mutexPath" -> sections must be non-blocking
 	structInvs    []*StructInv
+	conformIfaces map[string]bool // interfaces whose in-repo implementations are checked against the interface contracts
 	solverSem     chan struct{} // bounds the number of concurrently running solver processes started from within one function
 	owned         map[string]string // "pkg.Type" -> ghost field that must be 1 to touch the object
 	views         map[string]map[string]*Contract
@@ -329,15 +330,33 @@ func (e *Engine) newFnCtx(fn *ssa.Function, discovery bool, prev *FnCtx) *FnCtx 
 	return fc
 }
 
-func (e *Engine) runFn(fn *ssa.Function) (res *FnResult) {
+// conformJob: check that the contract of an in-repo implementation of an
+// interface method refines the contract written on the interface method.
+type conformJob struct {
+	iface *Contract // the contract on the interface method
+	impl  *Contract // the implementation's own contract
+	fn    *ssa.Function
+}
+
+func (e *Engine) runFn(fn *ssa.Function) (res *FnResult) { return e.runJob(fn, nil) }
+
+func (e *Engine) runJob(fn *ssa.Function, cj *conformJob) (res *FnResult) {
 	t0 := time.Now()
 	res = &FnResult{Fn: fn.String(), Short: shortFnName(fn)}
 	if c := e.contracts[fn.String()]; c != nil {
 		res.Props = c.Props
 	}
+	if cj != nil {
+		res.Fn = "conform:" + fn.String() + "<:" + cj.iface.Key
+		res.Short = shortFnName(fn) + "<:" + cj.iface.Key[strings.LastIndex(cj.iface.Key, "/")+1:]
+	}
 	var fc *FnCtx
 	run := func(discovery bool, prev *FnCtx) (fc *FnCtx, err string) {
 		fc = e.newFnCtx(fn, discovery, prev)
+		if cj != nil {
+			fc.con, fc.conformImpl = cj.iface, cj.impl
+			fc.prefixOverride = res.Short
+		}
 		defer func() {
 			if r := recover(); r != nil {
 				switch x := r.(type) {
@@ -966,4 +985,100 @@ func (e *Engine) checkSignatures() {
 			}
 		}
 	}
+}
+
+
+// conformJobs: one job per (interface method under contract, in-repo
+// implementation whose method is under a verified contract).
+func (e *Engine) conformJobs(want map[string]bool, all bool) (jobs []*conformJob, uncovered []string) {
+	for _, k := range e.contractOrder {
+		ic := e.contracts[k]
+		if !ic.IsIface || ic.Decl == nil || ic.Decl.Recv == nil || strings.Contains(k, ":") {
+			continue
+		}
+		i := strings.LastIndex(k, ".")
+		tkey, mname := k[:i], k[i+1:]
+		j := strings.LastIndex(tkey, ".")
+		if j < 0 || !strings.HasPrefix(tkey, repoMod) {
+			continue
+		}
+		if !all && !e.conformIfaces[tkey] {
+			continue
+		}
+		var it types.Type
+		packages.Visit(e.pkgs, nil, func(p *packages.Package) {
+			if p.Types != nil && p.PkgPath == tkey[:j] {
+				if tn, ok := p.Types.Scope().Lookup(tkey[j+1:]).(*types.TypeName); ok {
+					it = tn.Type()
+				}
+			}
+		})
+		if it == nil {
+			continue
+		}
+		for _, t := range e.implementers(it) {
+			sel := e.prog.MethodSets.MethodSet(t).Lookup(nil, mname)
+			if sel == nil {
+				if n := namedOf(t); n != nil && n.Obj().Pkg() != nil {
+					sel = e.prog.MethodSets.MethodSet(t).Lookup(n.Obj().Pkg(), mname)
+				}
+			}
+			if sel == nil {
+				continue
+			}
+			fn := e.prog.MethodValue(sel)
+			if fn == nil || fn.Synthetic != "" && len(fn.Blocks) == 0 {
+				continue
+			}
+			// wrappers for promoted / value-receiver methods: use the declared method
+			if fn.Synthetic != "" {
+				if obj, ok := sel.Obj().(*types.Func); ok {
+					if df := e.prog.FuncValue(obj); df != nil {
+						fn = df
+					}
+				}
+			}
+			impl := e.contracts[fn.String()]
+			if impl == nil || impl.Trusted || impl.IsIface {
+				if e.inRepo(fn) {
+					uncovered = append(uncovered, shortFnName(fn)+" (implements "+k[strings.LastIndex(k, "/")+1:]+")")
+				}
+				continue
+			}
+			selected := len(want) == 0
+			for _, p := range impl.Props {
+				if want[p] {
+					selected = true
+				}
+			}
+			if selected {
+				jobs = append(jobs, &conformJob{iface: ic, impl: impl, fn: fn})
+			}
+		}
+	}
+	return
+}
+
+
+// ifaceTypeOf: the interface type an `iface` contract is written on.
+func (e *Engine) ifaceTypeOf(c *Contract) types.Type {
+	k := c.Key
+	i := strings.LastIndex(k, ".")
+	if i < 0 {
+		return nil
+	}
+	tkey := k[:i]
+	j := strings.LastIndex(tkey, ".")
+	if j < 0 {
+		return nil
+	}
+	var it types.Type
+	packages.Visit(e.pkgs, nil, func(p *packages.Package) {
+		if p.Types != nil && p.PkgPath == tkey[:j] {
+			if tn, ok := p.Types.Scope().Lookup(tkey[j+1:]).(*types.TypeName); ok {
+				it = tn.Type()
+			}
+		}
+	})
+	return it
 }
